@@ -247,6 +247,17 @@ func concHandle(raw []byte) map[string]interface{} {
 			_ = objs["c1"].Set("x", 77)
 			if cs.Script != "plain" {
 				for _, n := range []string{"orig", "c2"} {
+					replaced := false
+					for _, ops := range cs.Plan {
+						for _, op := range ops {
+							if op["obj"] == n && op["kind"] == "Replace" {
+								replaced = true // its modules were replaced during the history: another program than the fresh reference
+							}
+						}
+					}
+					if replaced {
+						continue
+					}
 					_ = objs[n].Run()
 					ref, _ := concCompile(cs.Script)
 					_ = ref.Set("x", x[n])
